@@ -369,51 +369,67 @@ Fixpoint load_members (fuel i : nat) (ds : list (string * res td)) : res (list t
       end
   end.
 
+(* TensorDict._load_memmap *)
+Definition load_node (files : list (fname * content)) (ds : list (string * res td)) (m : list (string * json)) : res td :=
+  match sget "shape" m with
+  | Some js =>
+      match jshape_of js with
+      | Some bs =>
+          bind (load_records files (jdel "device" (jdel "shape" m))) (fun lp =>
+          bind (load_subs bs (snd lp) ds) (fun subs => Ok (Node bs (fst lp ++ subs))))
+      | None => Raised EOther
+      end
+  | None => Raised EKeyError
+  end.
+
+(* LazyStackedTensorDict._load_memmap *)
+Definition load_lazy (ds : list (string * res td)) (m : list (string * json)) : res td :=
+  match sget "stack_dim" m with
+  | Some j =>
+      match jnat_of j with
+      | Some sd => bind (load_members (S (List.length ds)) 0 ds) (fun ms =>
+                     match ms with [] => Raised ERuntime | _ => Ok (Lazy sd ms) end)
+      | None => Raised EOther
+      end
+  | None => Raised EKeyError
+  end.
+
+(* NonTensorStack._load_memmap *)
+Definition load_nstack (files : list (fname * content)) (ds : list (string * res td)) (m : list (string * json)) : res td :=
+  match sget "data" m with
+  | Some (JStr f) => match fget FPkl files with Some (CPickle p) => from_list p | _ => Raised EFileNotFound end
+  | Some j => from_list (payload_of_json j)
+  | None => bind (load_members (S (List.length ds)) 0 ds) (fun ms =>
+              match ms with [] => Raised ERuntime | _ => Ok (NStack ms) end)
+  end.
+
+(* tensorclass _load_memmap on a NonTensorData: non_tensordict = metadata minus _type, updated with other.pickle *)
+Definition load_ndata (files : list (fname * content)) (m : list (string * json)) : res td :=
+  let from_meta := match sget "data" m with Some j => payload_of_json j | None => PNone end in
+  match fget FOther files with
+  | Some (CPickle (PDict l)) => Ok (NData [] (match sget "data" l with Some p => p | None => from_meta end))
+  | Some _ => Raised EOther
+  | None => Ok (NData [] from_meta)
+  end.
+
+(* tensorclass _load_memmap on any other registered class *)
+Definition load_tc (c : string) (ds : list (string * res td)) : res td :=
+  match sget "_tensordict" ds with
+  | Some r => bind r (fun inner => Ok (TCls c inner))
+  | None => Raised EValueError
+  end.
+
+(* load_memmap: dispatch on metadata["_type"] *)
 Definition load_top (files : list (fname * content)) (ds : list (string * res td)) : res td :=
   match fget FMeta files with
   | Some (CJson (JObj m)) =>
       match sget "_type" m with
-      | Some (JStr "TensorDict") =>
-          match sget "shape" m with
-          | Some js =>
-              match jshape_of js with
-              | Some bs =>
-                  bind (load_records files (jdel "device" (jdel "shape" m))) (fun lp =>
-                  bind (load_subs bs (snd lp) ds) (fun subs => Ok (Node bs (fst lp ++ subs))))
-              | None => Raised EOther
-              end
-          | None => Raised EKeyError
-          end
-      | Some (JStr "LazyStackedTensorDict") =>
-          match sget "stack_dim" m with
-          | Some j =>
-              match jnat_of j with
-              | Some sd => bind (load_members (S (List.length ds)) 0 ds) (fun ms =>
-                             match ms with [] => Raised ERuntime | _ => Ok (Lazy sd ms) end)
-              | None => Raised EOther
-              end
-          | None => Raised EKeyError
-          end
-      | Some (JStr "NonTensorStack") =>
-          match sget "data" m with
-          | Some (JStr f) => match fget FPkl files with Some (CPickle p) => from_list p | _ => Raised EFileNotFound end
-          | Some j => from_list (payload_of_json j)
-          | None => bind (load_members (S (List.length ds)) 0 ds) (fun ms =>
-                      match ms with [] => Raised ERuntime | _ => Ok (NStack ms) end)
-          end
-      | Some (JStr "NonTensorData") =>
-          (* non_tensordict = metadata minus _type, updated with other.pickle when it exists *)
-          let from_meta := match sget "data" m with Some j => payload_of_json j | None => PNone end in
-          match fget FOther files with
-          | Some (CPickle (PDict l)) => Ok (NData [] (match sget "data" l with Some p => p | None => from_meta end))
-          | Some _ => Raised EOther
-          | None => Ok (NData [] from_meta)
-          end
       | Some (JStr c) =>
-          match sget "_tensordict" ds with
-          | Some r => bind r (fun inner => Ok (TCls c inner))
-          | None => Raised EValueError
-          end
+          if String.eqb c "TensorDict" then load_node files ds m
+          else if String.eqb c "LazyStackedTensorDict" then load_lazy ds m
+          else if String.eqb c "NonTensorStack" then load_nstack files ds m
+          else if String.eqb c "NonTensorData" then load_ndata files m
+          else load_tc c ds
       | Some _ => Raised ERuntime
       | None => Raised EKeyError
       end
@@ -469,6 +485,7 @@ Fixpoint stack_ok (t : td) : bool :=
       && (fix all (l : list td) : bool := match l with [] => true | x :: r => stack_ok x && all r end) items
       && (forallb (fun x => match x with NData _ _ => true | _ => false end) items
           || forallb (fun x => match x with NStack its => Nat.eqb (List.length its) (List.length (match hd (NData [] PNone) items with NStack i0 => i0 | _ => [] end)) | _ => false end) items)
+      && uniform_bs items
   | _ => false
   end.
 
